@@ -22,3 +22,7 @@ chk('C16', 'proof',
     'Axi2Reg and Reg2Axi (real constructors, real clock domains) are proved to refine the reference machines written from the statement: init, one-step and output obligations over all states and all inputs, so every schedule of start/reset/done/load pulses and handshake timing is covered by induction; the history clauses of the statement are discharged as consequences of the reference machine.',
     'Bounded in (register width, stream width) grid only. The schedule assumption of the statement (done only after a completed transfer) is not needed by any obligation. FSM leaves of the Vitis wrapper are not part of the statement.',
     'contract-based deductive verification: one-step refinement over composed leaf contracts (Reg.clock + gates), z3 BV', 'DESIGN.md section 4 / C16')
+chk('C13', 'proof',
+    'FPComparator_SP (both modes), InttoFP_SP, FPtoInt_SP and FPMult_SP are built by their real constructors and proved for ALL operand patterns of the stated domain against specifications written on the real values of the patterns (integer arithmetic, scaled); the order lemma (real order == key order) is a separate Int-mode obligation with symbolic exponents. FPAdder_SP: sign, commutativity and the 2-ulp error bound are proved per exponent-gap x effective-operation slice (each slice symbolic in both mantissas, both signs and the smaller exponent); slices the solver leaves open in the budget (effective subtraction at gaps <= 3 in the quick tier) are served by a seeded boundary/random bounded stand-in and are NOT counted as discharged.',
+    'Quick tier: gap slices {0..3,22..33,64,128,253}; thorough: all 254. FPMult_SP product uninterpreted (congruent, interval-bounded). Composition order trusted to C04; leaf contracts proved in C07/C08.',
+    'contract-based deductive verification: composition of proved leaf contracts over the real netlist, z3 BV (+ Int-mode lemma); bounded native stand-in for undecided slices', 'DESIGN.md section 4 / C13')
